@@ -253,6 +253,8 @@ class Ctx:
         fn = self.fn
         same = {}
         for i, p in enumerate(fn.params):
+            if p["k"] == "pbind" and p["name"] in ("self", "__self"):
+                continue
             t = short_ty(p.get("ty"))
             same.setdefault(t, []).append(i)
         for i, p in enumerate(fn.params):
@@ -375,7 +377,7 @@ class Ctx:
         res = None
         if base[0] == "param":
             res = base[1] + suffix
-        elif vid in self.assigned:
+        elif vid in self.assigned or (_pat.get("mut") and not _pat.get("byref")):
             res = "local:" + name
         elif base[0] == "expr":
             res = self.term(base[1], depth + 1) + suffix
@@ -414,7 +416,7 @@ class Ctx:
                 continue
             if k == "var":
                 d = self.defs.get(n["id"])
-                if d and d[0][0] == "expr" and not d[1] and n["id"] not in self.assigned:
+                if d and d[0][0] == "expr" and not d[1] and n["id"] not in self.assigned and not d[2].get("mut"):
                     n = d[0][1]
                     continue
             return n
@@ -735,8 +737,15 @@ class Flow:
             c = ctx.formula(s["c"])
             if t_div and not e_div:
                 facts.append(Not(c))
+                if "e" in s:
+                    facts.extend(self.block_facts(s["e"]))
             elif e_div and not t_div:
                 facts.append(c)
+                facts.extend(self.block_facts(s["t"]))
+            elif not t_div and not e_div:
+                tf = And(c, *self.block_facts(s["t"]))
+                ef = And(Not(c), *(self.block_facts(s["e"]) if "e" in s else []))
+                facts.append(Or(tf, ef))
             for x in uncond_subnodes(s["c"]):
                 facts.extend(self._node_fact(x))
             return facts
@@ -745,6 +754,15 @@ class Flow:
         for x in uncond_subnodes(s):
             facts.extend(self._node_fact(x))
         return facts
+
+    def block_facts(self, b):
+        """Facts that hold after block/expression b completed normally."""
+        if b["k"] != "block":
+            return self.exit_facts(b)
+        out = []
+        for st in stmts_of(b):
+            out.extend(self.exit_facts(st))
+        return out
 
     def _node_fact(self, x):
         ctx = self.ctx
